@@ -111,5 +111,41 @@ def main(a):
         print(f"selftest-determinism: {total} cases x {len(rounds)} rounds over {plist}: "
               f"{'OK' if bad == 0 else str(bad) + ' MISMATCHES'}")
         return 0 if bad == 0 else 2
+    if a.what == "selftest-realpipe":
+        # stub cross-check (never decides a property): simulator vs real subprocess over pipes
+        n = a.cases or 40
+        farm = farm_mod.Farm(a.repo, hashseeds=(0, 1), nworkers=8)
+        bad = 0
+        done = 0
+        skipped = 0
+        try:
+            tasks = []
+            for prop in ("C09", "C16", "C01", "C20"):
+                for i in range(n):
+                    tasks.append((prop, i))
+
+            def one(t):
+                prop, i = t
+                if prop == "C16":
+                    i += 9000  # seeded sessions, not the enumerated no-initialize stream
+                return t, farm.run({"t": "realpipe", "gen": {"prop": prop, "tier": "quick", "seed": a.seed,
+                                                             "i": i}}, i % 2)
+
+            for t, r in farm_mod.pmap(one, tasks, 10):
+                if r.get("skipped"):
+                    skipped += 1
+                elif r.get("status") != "done":
+                    bad += 1
+                    print("HARNESS", t, str(r.get("error"))[-400:])
+                elif not r.get("equal"):
+                    bad += 1
+                    print("MISMATCH", t, r.get("first_diff"))
+                else:
+                    done += 1
+        finally:
+            farm.stop()
+        print(f"selftest-realpipe: {done} schedules identical in simulator and real subprocess, "
+              f"{skipped} skipped, {bad} mismatches")
+        return 0 if bad == 0 else 2
     print("unknown selftest")
     return 2
